@@ -65,8 +65,13 @@ pub fn check(sc: &Scenario, env: &mut Env) -> Result<Outcome, HarnessError> {
     let wi = 0;
     let w = &sc.walkers[wi];
     let u = run_underlying(sc, env, wi)?;
-    // the observer (an empty filter_entry table placed last) stays last
-    let k = w.layers.len().saturating_sub(1);
+    // the observer (an empty filter_entry table placed last) stays last; a stack without one is
+    // permuted as a whole (its outermost combinator then changes from permutation to permutation)
+    let has_observer = matches!(w.layers.last(), Some(Layer::Fe(t)) if t.is_empty());
+    let k = if has_observer { w.layers.len() - 1 } else { w.layers.len() };
+    if !has_observer {
+        out.probe("stack:no-observer-on-top");
+    }
     let perms = permutations(k);
     for (pi, perm) in perms.iter().enumerate() {
         let mut psc = sc.clone();
